@@ -117,13 +117,14 @@ type Facts struct {
 	// cron: node limits handed to the state machine, by assigned variable
 	NodeLimits map[string][2]int64 `json:"nodeLimits"`
 	// cron: parser boundaries by field index 0..6
-	ParseBounds [][2]int64 `json:"parseBounds"`
-	HashRange   [2]int64   `json:"hashRange"`
-	Months      []string   `json:"months"`
-	Days        []string   `json:"days"`
-	Special     [][2]string `json:"special"`
-	DowShift    int64      `json:"dowShift"`
-	Missing     []string   `json:"missing"`
+	ParseBounds [][2]int64     `json:"parseBounds"`
+	HashRange   [2]int64       `json:"hashRange"`
+	Months      []string       `json:"months"`
+	Days        []string       `json:"days"`
+	Special     [][2]string    `json:"special"`
+	DowShift    int64          `json:"dowShift"`
+	Missing     []string       `json:"missing"`
+	Extra       map[string]any `json:"extra,omitempty"`
 }
 
 func (fx *Facts) miss(what string) { fx.Missing = append(fx.Missing, what) }
